@@ -1258,7 +1258,49 @@ func lemmaCreateThenMapQueue(data []byte, cap uint32) {
 //@   loop 0 assume size > 0 ==> frontOK(l) && l.pinnedList.backSlice != l.sliceList.frontSlice && (l.sliceList.frontSlice.writeIndex - l.sliceList.frontSlice.readIndex < size ==> l.sliceList.len > 1)
 //@   loop 0 invariant bufOK(l) && size >= 0 && len(result) + size == size0 && l.len == old(l.len) - size0 && fresh(result) && err == nil
 
+// ReadByte / ReadString after the refill (copying readers): exactly one byte / size bytes are consumed, the
+// exhausted front slice is dropped through readNextSlice (which parks it when a zero-copy result still pins it).
+//@ func (*linkedBuffer).ReadByte
+//@   requires bufOK(l) && l.len >= 1
+//@   assume   frontOK(l) && (l.sliceList.frontSlice.writeIndex == l.sliceList.frontSlice.readIndex ==> l.sliceList.len > 1 && wfSlice(l.sliceList.frontSlice.nextSlice) && l.sliceList.frontSlice.nextSlice != l.sliceList.frontSlice && l.sliceList.frontSlice.nextSlice.writeIndex > l.sliceList.frontSlice.nextSlice.readIndex && (l.sliceList.len > 2 ==> l.sliceList.frontSlice.nextSlice.nextSlice != nil))
+//@   assume   l.pinnedList.backSlice != l.sliceList.frontSlice
+//@   unreachable-returns 1   // the readMore error exit (the refill is outside this contract)
+//@   ensures  r1 == nil && l.len == old(l.len) - 1 && bufOK(l)
+
+//@ func (*linkedBuffer).ReadString
+//@   requires bufOK(l) && l.len >= size
+//@   assume   size > 0 ==> frontOK(l)
+//@   assume   l.pinnedList.backSlice != l.sliceList.frontSlice
+//@   unreachable-returns 1   // the readMore error exit
+//@   ensures  size <= 0 ==> r1 == nil && l.len == old(l.len)
+//@   ensures  size > 0 ==> r1 == nil && l.len == old(l.len) - size
+//@   loop 0 assume frontOK(l) && l.pinnedList.backSlice != l.sliceList.frontSlice && (l.sliceList.frontSlice.writeIndex == l.sliceList.frontSlice.readIndex ==> l.sliceList.len > 1)
+//@   loop 0 invariant bufOK(l) && 0 <= written && written <= size && len(s) == size && l.len == old(l.len)
+//@   at call (*sliceList).front#3 assume frontOK(l) && l.pinnedList.backSlice != l.sliceList.frontSlice   // availability after the exhausted front slice was dropped (Len accounts the slices: not mechanised, see C06)
+//@   assume   size < 1099511627776   // environment: the bytes buffered in memory (l.len >= size) are fewer than 2^40
+
+// read (io.Reader style): copies what is there, up to len(p); Len drops by exactly the number of bytes returned
+//@ func (*linkedBuffer).read
+//@   requires bufOK(l) && l.len >= 1
+//@   assume   l.sliceList.len >= 1 ==> frontOK(l)
+//@   assume   l.pinnedList.backSlice != l.sliceList.frontSlice
+//@   unreachable-returns 1   // the readMore error exit
+//@   ensures  err == nil && 0 <= n && n <= len(p) && l.len == old(l.len) - n
+//@   loop 0 assume (front != nil ==> front == l.sliceList.frontSlice && frontOK(l) && l.pinnedList.backSlice != l.sliceList.frontSlice) && (front == nil ==> l.sliceList.len == 0 || l.sliceList.frontSlice == nil)
+//@   loop 0 invariant bufOK(l) && 0 <= written && written <= size && size == len(p) && l.len == old(l.len)
+
+// readMore (C07/C10): the reader is told that the stream ended (ErrEndOfStream / ErrStreamClosed) only after the
+// data that arrived before the close notification has been moved into its buffer - after the wake-up that led
+// to this decision, not just at some earlier time - and the buffer still does not satisfy the request.
+// ghost drainedIter: pendingData was moved into the buffer since the function started / since this wake-up.
 //@ func (*Stream).readMore
+//@   ghost var drainedIter bool = false
+//@   at call? (*pendingData).moveTo#0 ghost[C07,C10] drainedIter := true
+//@   at call? (*pendingData).moveTo#1 ghost[C07,C10] drainedIter := true
+//@   at call? (*pendingData).moveTo#2 ghost[C07,C10] drainedIter := true
+//@   loop 0 ghost[C07,C10] drainedIter := false
+//@   exit[C07,C10] err == ErrEndOfStream || err == ErrStreamClosed ==> drainedIter
+//@   exit[C07,C10] err == nil ==> drainedIter
 //@   modifies heap
 
 // Peek: consumes nothing. Fast path: zero-copy view of the next size bytes of the front slice, which it
